@@ -51,7 +51,7 @@ harness(void)
 {
 #if !V_SUBST
 	IN(unsigned, in_n); IN(unsigned, in_c0); IN(unsigned, in_c1); IN(unsigned, in_c2);
-	IN(bool, in_m0); IN(bool, in_m1); IN(bool, in_m2); IN(size_t, in_depth);
+	IN(bool, in_m0); IN(bool, in_m1); IN(bool, in_m2); IN(size_t, in_depth); IN(bool, in_paint);
 	unsigned cnt[3], i, top, npop;
 	bool hasm[3];
 	struct token *r;
@@ -59,7 +59,8 @@ harness(void)
 	__CPROVER_assume(in_n <= 3 && in_c0 <= 2 && in_c1 <= 2 && in_c2 <= 2 && in_depth >= 3 && in_depth < 1000);
 	cnt[0] = in_c0; cnt[1] = in_c1; cnt[2] = in_c2; hasm[0] = in_m0; hasm[1] = in_m1; hasm[2] = in_m2;
 	for (i = 0; i < 3; i++) {
-		mac[i].kind = MACROOBJ; mac[i].hide = true; mac[i].nparam = 0;
+		mac[i].kind = MACROOBJ; mac[i].hide = true; mac[i].nparam = 0; mac[i].token = &pool[i][0]; mac[i].ntoken = 2;
+		pool[i][0].hide = false; pool[i][1].hide = in_paint;     /* a name met during its own replacement was marked in place (PP.expand) */
 		pool[i][0].kind = TNUMBER; pool[i][1].kind = TIDENT; pool[i][0].lit = pool[i][1].lit = "x";
 		frames[i].token = &pool[i][0]; frames[i].ntoken = cnt[i]; frames[i].macro = hasm[i] ? &mac[i] : (struct macro *)0;
 	}
@@ -83,6 +84,7 @@ harness(void)
 		bool popped = i < in_n && (top == 3 || i > top);
 		if (popped && hasm[i]) npop++;
 		__CPROVER_assert(mac[i].hide == !(popped && hasm[i]), "a macro whose replacement list is used up is replaceable again; every other macro keeps its mark");
+		__CPROVER_assert(IMP(popped && hasm[i], !pool[i][0].hide && !pool[i][1].hide), "6.10.3.4p2 speaks of the token INSTANCES of one replacement: when it is finished the stored replacement list is as defined again, so that 'each subsequent instance of the macro name' (6.10.3p9) is replaced by the same list");
 		__CPROVER_assert(IMP(i < in_n && top != 3 && i < top, frames[i].ntoken == cnt[i] && frames[i].token == &pool[i][0]), "enclosing contexts are untouched");
 	}
 	__CPROVER_assert(macrodepth == in_depth - npop, "nesting depth drops by the number of finished replacements");
@@ -99,7 +101,7 @@ harness(void)
 
 	__CPROVER_assume(in_k < K_N && in_na <= 2 && in_nb <= 2);
 	params[0].name = n_a; params[1].name = n_b;
-	mac[0].kind = MACROFUNC; mac[0].hide = true; mac[0].nparam = 2; mac[0].param = params; mac[0].arg = args;
+	mac[0].kind = MACROFUNC; mac[0].hide = true; mac[0].nparam = 2; mac[0].param = params; mac[0].arg = args; mac[0].token = body; mac[0].ntoken = 3;
 	args[0].token = at[0]; args[0].ntoken = in_na; args[1].token = at[1]; args[1].ntoken = in_nb;
 	args[0].str.kind = TSTRINGLIT; args[1].str.kind = TSTRINGLIT;
 	at[0][0].kind = at[0][1].kind = at[1][0].kind = at[1][1].kind = TNUMBER;
